@@ -132,6 +132,9 @@ CHECKS = {
     'C37': ('Opened results of real secure NumPy arrays (NumPy venv) on simulated party worlds, plain NumPy results and elementwise secure-scalar results, all validated by TLC against Arrays.tla / ArraysTrace.tla (NumPy semantics from first principles)',
             'Secure integer, fixed-point and prime-field arrays of up to 3 dimensions and 14 elements, every broadcast-compatible shape pair, created by conversion and by mpc.input: + - * / ** << neg abs sgn, six comparisons, minimum/maximum, matmul (1-D/2-D combinations), outer, sum prod all any amin amax argmin argmax cumsum along every axis, sort flip roll, reshape flatten transpose swapaxes expand_dims squeeze, concatenate stack vstack hstack append, indexing and slicing, where, copy, input/output; m in {1,3,4} (thorough 5), PRSS on/off. Array sharing / recombination / PRSS against the list versions: C11, C12, C15, C17 run both variants.',
             'Small shapes and entries; fixed-point products within 2n+1 units; prime fields only.', 'DESIGN.md C37'),
+    'C18': ('TLC model check of MaskingMC over Masking.tla (exact statistical distance of the views of every pair of secrets over the whole mask space) + openings, random-bit counts and random bounds recorded inside the real protocols validated by TLC against MaskTrace.tla',
+            'Model: trunc, sgn (with the public zero test of its comparison), lsb, _mod, to_bits, is_zero_public for L <= 4, K <= 4, slack D in {1,2}: SD <= D/2^K for all pairs of secrets. Code: on worlds m in {1,3} (thorough ..5, PRSS on/off), SecInt(6), SecInt(8), SecFxp(10,4), k = 8: the mask parameters the code requests equal the specification\'s (ParamOK), the opened value is secret + offset + mask in the mask interval (ViewOK), and a second world with the same random tape and another secret opens the same mask (IndepOK).',
+            'First opening of each protocol is bound to the code; later openings by the model only; shares received: C14; uniformity of bounded randoms: C15/C17.', 'DESIGN.md C18'),
 }
 NA_REASON = 'check not built yet in this session (planned, see DESIGN.md section 3); not claimed'
 
